@@ -324,14 +324,20 @@ def run(tier, replay_path=None):
         p = subprocess.run([drv, "coop"], input=open(replay_path).read(), capture_output=True, text=True)
         print(p.stdout); print(p.stderr[-2000:]); return 0
     quick = tier == "quick"
+    # developer switch for mutation experiments on a scratch copy of the headers (the model checking of the specs does not
+    # depend on the headers): C31_ONLY=replay,random,stress
+    parts = set(os.environ.get("C31_ONLY", "mc,replay,random,stress").split(","))
     lock = threading.Lock()
     phases = res.cov.setdefault("phase_seconds", {})
     def phase(name, t0):
         phases[name] = round(time.time() - t0, 1)
     # S: the abstract spec says what C31 says; the implementation-shaped spec has the properties and refines it
     t0 = time.time()
-    r = tlc.run_tlc(os.path.join(SPEC, "MC_InternAbs.tla"), os.path.join(SPEC, "MC_InternAbs.cfg"), os.path.join(wd, "abs"), timeout=900, workers=4)
-    if r["violated"]:
+    r = tlc.run_tlc(os.path.join(SPEC, "MC_InternAbs.tla"), os.path.join(SPEC, "MC_InternAbs.cfg"), os.path.join(wd, "abs"), timeout=900, workers=4) \
+        if "mc" in parts else {"violated": None, "ok": False, "error": "skipped (C31_ONLY)"}
+    if "mc" not in parts:
+        pass
+    elif r["violated"]:
         res.infra_errors.append("spec/InternAbs.tla does not have the properties C31 states: " + str(r["violated"]))
     elif not r["ok"]:
         res.infra_errors.append("MC_InternAbs: " + str(r["error"]))
@@ -342,6 +348,8 @@ def run(tier, replay_path=None):
     cfgs = ["MC_Flyweight2g.cfg", "MC_Flyweight2m.cfg", "MC_Flyweight2c.cfg", "MC_Flyweight3q.cfg"]
     if not quick:
         cfgs += ["MC_Flyweight3.cfg", "MC_Flyweight3g.cfg", "MC_Flyweight3v.cfg"]
+    if "mc" not in parts:
+        cfgs = []
     per = max(2, NCPU // (4 if quick else 3))
     ths = [threading.Thread(target=model_check, args=(res, wd, c, lock), kwargs={"workers": per, "heap": "6g" if quick else "12g"}) for c in cfgs]
     for t in ths[:4]:
@@ -349,12 +357,14 @@ def run(tier, replay_path=None):
     # R + T (the driver work overlaps the model checking)
     histories = []
     t1 = time.time()
-    for cfg in ["MC_Flyweight2gr.cfg", "MC_Flyweight2mr.cfg"] + ([] if quick else ["MC_Flyweight2cr.cfg"]):
+    for cfg in (["MC_Flyweight2gr.cfg", "MC_Flyweight2mr.cfg"] + ([] if quick else ["MC_Flyweight2cr.cfg"])) if "replay" in parts else []:
         replay(res, wd, cfg, drv, 800 if quick else None, histories)
     phase("replay", t1); t1 = time.time()
-    random_schedules(res, wd, drv, 1000 if quick else 20000, histories)
+    if "random" in parts:
+        random_schedules(res, wd, drv, 1000 if quick else 20000, histories)
     phase("random_schedules", t1); t1 = time.time()
-    stress(res, wd, drv, 30 if quick else 80, 100 if quick else 300, histories, rounds=1 if quick else 6)
+    if "stress" in parts:
+        stress(res, wd, drv, 30 if quick else 80, 100 if quick else 300, histories, rounds=1 if quick else 6)
     phase("stress", t1); t1 = time.time()
     for t in ths[:4]:
         t.join()
@@ -368,7 +378,7 @@ def run(tier, replay_path=None):
         t.join()
     taken = res.cov.pop("_taken", set())
     never = [a for a in ACTIONS if a not in taken]
-    if never and not res.violations:
+    if never and not res.violations and "mc" in parts:
         res.infra_errors.append("vacuity: actions of FlyweightImpl never taken in any configuration: %s" % never)
     st = [h for h in histories if h[0].startswith("real-thread")]
     if st:
